@@ -136,6 +136,9 @@ func (e *Engine) secretFmtObligs() []*Oblig {
 				}
 				cc := ci.Common()
 				key := e.calleeKey(cc)
+				if o := e.secretEncoding(fn, k, in, cc, key); o != nil {
+					out = append(out, o)
+				}
 				if key == "" || !e.isSink(key) {
 					continue
 				}
@@ -172,4 +175,62 @@ func (e *Engine) secretFmtObligs() []*Oblig {
 		}
 	}
 	return out
+}
+
+// secretEncoding: a call that serialises a secret value (an encoder method invoked on a value of a secret type, or an
+// encoder function handed one) is allowed only inside the functions declared `mayencode` (the key store / database
+// mirrors); anywhere else it is how key material would get into a response, a packet or a log line.
+func (e *Engine) secretEncoding(fn *ssa.Function, fnKey string, in ssa.Instruction, cc *ssa.CallCommon, key string) *Oblig {
+	if len(e.cs.Encoders) == 0 {
+		return nil
+	}
+	isSecret := func(t types.Type) bool {
+		ts := types.TypeString(t, nil)
+		if p, ok := t.Underlying().(*types.Pointer); ok {
+			ts = types.TypeString(p.Elem(), nil)
+		}
+		for _, s := range e.cs.Secrets {
+			if ts == s {
+				return true
+			}
+		}
+		return false
+	}
+	hit := ""
+	if cc.IsInvoke() {
+		for _, m := range e.cs.Encoders {
+			if cc.Method.Name() == m && isSecret(cc.Value.Type()) {
+				hit = m + " on a " + types.TypeString(cc.Value.Type(), nil)
+			}
+		}
+	} else {
+		for _, m := range e.cs.Encoders {
+			if key == m {
+				for _, a := range cc.Args {
+					if isSecret(a.Type()) {
+						hit = shortFuncName(key) + " of a " + types.TypeString(a.Type(), nil)
+					}
+				}
+			}
+		}
+	}
+	if hit == "" {
+		return nil
+	}
+	allowed := false
+	for _, p := range e.cs.MayEncode {
+		if strings.HasPrefix(fnKey, p) {
+			allowed = true
+		}
+	}
+	label := e.info(fn).callOrd[in]
+	pos := e.prog.Fset.Position(in.Pos())
+	o := &Oblig{Func: shortFuncName(fnKey), Kind: "secretenc", Label: fmt.Sprintf("%s#%d", label.name, label.ord), Prop: "C15",
+		Src: "a private scalar / share is serialised (" + hit + ") only inside the key-store and database mirrors", Where: fmt.Sprintf("%s:%d", trimRepo(e.repo, pos.Filename), pos.Line),
+		Goal: "true", Res: SolverResult{Status: "unsat", Solver: "syntactic"}}
+	if !allowed {
+		o.Goal = "false"
+		o.Res = SolverResult{Status: "sat", Solver: "syntactic", Out: "serialisation of key material outside the functions declared mayencode: " + hit}
+	}
+	return o
 }
